@@ -22,6 +22,10 @@ CHECKS = {
    technique="TLA+ IamCache (cache/store steps of lookup, create, update, delete) judged against LinKey's account reading; TLC enumerates all interleavings, forced through hooks on the real auth.IAMCache + file store and over HTTP; TLC validates every history",
    text="The implementation-shaped spec IamCache (one action per stretch between the iam.* hook sites, with the cache's change counter) is model-checked: the design as implemented satisfies CompleteEntry and NoStaleAfterAck for all interleavings of 2-3 account operations incl. a lookup whose cache miss is in flight. TLC emits every interleaving of 13 scenario/initial-state combinations; each is forced on the real auth.IAMCache over the real internal file store in-process through blocking hooks, compared with the model's prediction, and the recorded history plus a lookup after quiescence is judged by TLC (LinKeyTrace, account reading: every lookup must be explainable by the acknowledged and concurrent effective mutations, and return a complete entry). The same is exercised end to end (admin API + signed requests, a signed request held at the miss window while the admin deletes/updates), and concurrent creates must all be in a store that parses.",
    note="One gateway process (documented limitation of the internal IAM store); TTL expiry not exercised; uid/gid observed at library level and through list-users, not through file ownership."),
+ "C19": dict(design="5/C19",
+   technique="TLA+ EventPipe: abstract notification rule + pipeline model (record built from a pooled context, serialised later) checked by TLC; real webhook sender -> collector; every request outcome with its notifications validated by TLC (EventTrace); gated hold of the async sender",
+   text="EventPipe states the rule (exactly one right notification per affected key of a successful object-changing request, none for failures, filter with wildcard fallback) and models the pipeline in which the record is built from the pooled request context and serialised asynchronously; TLC shows ExactlyOneRightEvent holds iff the record holds copies. Against the real gateway with its real webhook sender posting to the harness's collector: sequential programs of succeeding and failing put / copy / multipart completion / delete / batch delete with a per-key failure / put- and delete-tagging, 16 concurrent clients, several filter files, and a gated schedule that holds a notification before serialisation while further requests reuse the context. Each request outcome with the notifications attributed to it is a trace line validated by TLC.",
+   note="Webhook sender only (Kafka/NATS cannot run offline); attribution by unique key; quiescence by a 400 ms idle period; versioned notifications (versionId) not compared."),
 }
 NOT_YET = {}
 def main():
